@@ -111,9 +111,11 @@ verif_yield(int site, uint64_t key)
   case M_GAPS:
     /* Long naps (default 2 ms) in the lock-free gaps between two critical
        sections: whatever a thread decided under one lock and acts upon under
-       the next one is exposed to everything the other threads can do. */
+       the next one is exposed to everything the other threads can do.  The
+       writer also naps while it holds its queue mutex (VS_SINK_LOCKED), so
+       that the workers find that lock busy every now and then. */
     if (site == VS_SCHED_UNLOCK || site == VS_SINK_WRITE ||
-        site == VS_SRC_RELEASE) {
+        site == VS_SRC_RELEASE || site == VS_SINK_LOCKED) {
       if (rnd() % (4u + sched_seed % 5u) == 0)
         nap(sched_arg ? 1000u * sched_arg : 2000u);
     }
